@@ -97,7 +97,7 @@ class COTPConnectionBase(ParsableBase):
 
         parser.parse_raw('user_data', parser['length_indicator'] - parser.parsed_length + 1)
 
-        return COTPConnectionRequest(
+        return cls(
             src_ref=parser['src_ref'],
             dst_ref=parser['dst_ref'],
             class_option=parser['class_option'],
